@@ -393,7 +393,7 @@ def proj_tables(cx, sg, projs, pset, detail):
             # numeric: the initial centres are a fixed point of the symmetriser (they sit on the sites of a symmetric set)
             if out["has_blocks"]:
                 s2, c2 = cx.call("symmetrize_wannier_property", detail, sym.symmetrize_wannier_property, np.array(pset.wannier_centers_cart))
-                if s2 == "ok":
+                if s2 == "ok" and np.shape(c2) == np.shape(centres):
                     dev = np.asarray(c2) @ np.linalg.inv(sg.lattice) - centres
                     dev = float(np.abs(dev - np.round(dev)).max()) if dev.size else 0.0
                     out["centres_fixed_point_dev"] = dev
